@@ -1311,7 +1311,9 @@ func Main() {
 	r.Assume(fmt.Sprintf("allocation allowance per decode: (%d + T)*len(input) + %d + 8*T bytes, T = in-memory size of one value of the target type", allocPerByte, allocConst))
 	r.Assume("uint256.Int (holiman v1.1.1) has EncodeRLP but lib/rlp has no decoder for it: encode-only, checked against the integer encoding in the fixed corpus")
 
-	child := core.Opts{Procs: r.N(8, 16), HangIsViolation: true, StallSec: 120, MemMB: 4096}
+	// children are single-goroutine (TotalAlloc deltas are attributed to one decode); GOMAXPROCS=1 makes the two
+	// ReadMemStats stop-the-world pauses per decode three times cheaper
+	child := core.Opts{Procs: r.N(8, 16), HangIsViolation: true, StallSec: 120, MemMB: 4096, Env: []string{"GOMAXPROCS=1"}}
 	// development aid: VERIF_C16_GROUPS=values,strings runs only those groups (the floors then report what is missing)
 	sel := os.Getenv("VERIF_C16_GROUPS")
 	cases := func(name string, n int, fn func(*core.Case)) {
